@@ -65,6 +65,10 @@ META = {
         "R9: the directive-line anchor attributes of the mock classes (those __init__ fills from an L1 parameter: _lineno, lineno) are "
         "written only in __init__, on an object constructed in the same function, or under a save-before-try / restore-in-finally pair - "
         "run_directive is re-entrant, so re-positioning a shared state object corrupts the enclosing directive's later lines. "
+        "R9 also requires document.current_line (docutils' fallback line for nodes a directive leaves unstamped) to be set again after "
+        "every call in the storing function that can re-enter it (nested directives). R10: the directive body / its offset, the option "
+        "parser's remaining content and the included text are split with '\\n' semantics, not str.splitlines (which also splits on "
+        "form feed, U+2028 ...), because markdown-it's token maps count '\\n' only. "
         "R8: a value returned by a package function that was given a line (L1/P kind) is not stored in a mapping that outlives the call "
         "(module global, attribute, document/env) under a key that omits that line - a replay would carry the first occurrence's lines."
     ),
@@ -89,7 +93,7 @@ META = {
     ],
 }
 
-R1, R2, R3, R4, R5, R6, R7, R8, R9 = "C04.R1", "C04.R2", "C04.R3", "C04.R4", "C04.R5", "C04.R6", "C04.R7", "C04.R8", "C04.R9"
+R1, R2, R3, R4, R5, R6, R7, R8, R9, R10 = "C04.R1", "C04.R2", "C04.R3", "C04.R4", "C04.R5", "C04.R6", "C04.R7", "C04.R8", "C04.R9", "C04.R10"
 
 
 # ---------------------------------------------------------------------------
@@ -1787,6 +1791,16 @@ def _include_region(corpus: Corpus) -> dict | None:
             return {"run": run, "calls": len(calls)}
         call = calls[0]
         readers = {n.func.value.id for n in run.local_nodes() if isinstance(n, ast.Call) and isinstance(n.func, ast.Attribute) and n.func.attr == "read_text" and isinstance(n.func.value, ast.Name)}
+        g0 = get_callgraph(corpus)
+        for n in run.local_nodes():  # path handed to a private helper that reads it: self._read_file(path)
+            if isinstance(n, ast.Call):
+                for t in g0.resolve_call(n, run):
+                    if isinstance(t, FunctionInfo) and not t.is_lambda:
+                        inner = {c.func.value.id for c in t.local_nodes() if isinstance(c, ast.Call) and isinstance(c.func, ast.Attribute) and c.func.attr == "read_text" and isinstance(c.func.value, ast.Name)}
+                        for pn in inner & set(t.params):
+                            a_ = _arg_for(n, t, pn)
+                            if isinstance(a_, ast.Name):
+                                readers.add(a_.id)
         out = {"run": run, "calls": 1, "call": call, "host": run, "tr": None, "render": call, "readers": readers}
         tr = next((a for a in ancestors(call) if isinstance(a, ast.Try) and a.finalbody and any(call in ast.walk(s_) for s_ in a.body)), None)
         if tr is not None:
@@ -1845,6 +1859,15 @@ def _is_path_var(name: str, fi: FunctionInfo, corpus: Corpus | None = None, dept
             d = dotted(v.func) or ""
             if d.split(".")[-1] in ("Path", "joinpath", "absolute", "resolve"):
                 return True
+            if corpus is not None and depth < 3:
+                for t in get_callgraph(corpus).resolve_call(v, fi):
+                    if isinstance(t, FunctionInfo) and not t.is_lambda:
+                        ann = getattr(t.node, "returns", None)
+                        if ann is not None and "Path" in unparse(ann):
+                            return True
+                        rets = [r.value for r in t.local_nodes() if isinstance(r, ast.Return) and r.value is not None]
+                        if rets and all(isinstance(r, ast.Name) and _is_path_var(r.id, t, corpus, depth + 1) for r in rets):
+                            return True
     return False
 
 
@@ -2232,6 +2255,8 @@ def _head_cuts(value: ast.expr, T: str, K: "Kinds", fi: FunctionInfo) -> list[tu
             base = n.value
             if isinstance(base, ast.Call) and isinstance(base.func, ast.Attribute) and base.func.attr in ("splitlines", "split") and isinstance(base.func.value, ast.Name) and base.func.value.id == T:
                 out.append(("lines", n.slice.lower))
+            elif isinstance(base, ast.Call) and isinstance(base.func, ast.Name) and len(base.args) == 1 and isinstance(base.args[0], ast.Name) and base.args[0].id == T and not base.keywords:
+                out.append(("lines", n.slice.lower))  # a line-splitting helper: split_lines(T)[a:b]
             elif isinstance(base, ast.Name) and base.id == T:
                 out.append(("lines" if K.is_lines(base, fi) and not K.is_str(base, fi) else "chars", n.slice.lower))
     return out
@@ -2553,10 +2578,141 @@ def r9_anchor_fixed(corpus: Corpus, rep: Report, tier: str):
                     rep.ok(R9, k, site, "previous anchor saved before the try and restored in finally")
                 else:
                     rep.violation(R9, k, site, f"`{short(n, 60)}` moves the line anchor of a {cname} that is not created here (it is shared with whoever else holds it): run_directive is re-entrant, so a directive nested in another one re-positions the state its enclosing directive is still using and nothing puts the old line back - everything the outer directive parses afterwards is located relative to the inner directive's line")
+    # (b) docutils' fallback line for unstamped nodes (document.current_line) is re-established after a re-entrant call
+    reach_cache: dict[str, set[str]] = {}
+    for fi in _funcs(corpus):
+        stores = [n for n in fi.local_nodes() if isinstance(n, ast.Assign) and any(isinstance(t, ast.Attribute) and t.attr == "current_line" for t in n.targets)]
+        if not stores:
+            continue
+        cfg = get_cfg(fi)
+        for st in stores:
+            tgt = next(t for t in st.targets if isinstance(t, ast.Attribute) and t.attr == "current_line")
+            reach = cfg.reachable_from(st)
+            reent = []
+            for call, targets in g.callees(fi):
+                cs = cfg.stmt_of(call)
+                if cs is st or cs not in reach:
+                    continue
+                for t in g.flat_targets(targets):
+                    if t.fq not in reach_cache:
+                        reach_cache[t.fq] = set(g.reachable([t]))
+                    if fi.fq in reach_cache[t.fq]:
+                        reent.append((call, cs))
+                        break
+            k = f"{_key_owner(corpus, fi).fq}|{unparse(tgt)} = {short(st.value, 30)} holds again after the nested run"
+            site = fi.module.site(st)
+            if not reent:
+                rep.ok(R9, k, site, "no re-entrant call after the store")
+                continue
+            again = {cfg.stmt_of(n) for n in fi.local_nodes() if isinstance(n, ast.Assign) and n is not st and any(unparse(t) == unparse(tgt) for t in n.targets) and (unparse(n.value) == unparse(st.value) or isinstance(n.value, ast.Name))}
+            # exceptional continuations (the directive failed: only a stamped system message is returned) are not judged
+            bad = [c for c, cs in reent if cfg.paths_avoiding(cs, "EXIT", lambda n, again=again: n in again or (isinstance(n, tuple) and n[0] == "H"))]
+            if bad:
+                rep.violation(R9, k, site, f"`{short(st, 60)}` sets the line docutils gives to nodes a directive leaves unstamped (container, topic, list-table ...), but `{short(bad[0], 40)}` can run nested directives, each of which overwrites it, and it is not set back before the outer directive's nodes are attached: they take the line of the last directive nested inside them")
+            else:
+                rep.ok(R9, k, site, "set again after every re-entrant call")
     rep.expect_min(R9, 2, "anchor attributes of MockState / MockStateMachine / MockIncludeDirective")
 
 
-RULES = [r1_stamping, r2_line_kinds, r3_shift_once, r4_lossy_round_trip, r5_source_path, r6_body_offset_pairing, r7_start_accumulator, r8_line_free_cache, r9_anchor_fixed]
+# ---------------------------------------------------------------------------
+# R10 source text is split into lines the way markdown-it counts them ("\n" only)
+
+
+def _splitlines_in_defs(fi: FunctionInfo, seeds: set[str]) -> list[ast.Call]:
+    """``x.splitlines()`` calls inside the definitions of the tracked names (closed over the names those definitions read)."""
+    def has_split(e_) -> bool:
+        # a bare count `len(x.splitlines())` does not make the name a carrier of the split text
+        return e_ is not None and any(
+            isinstance(c, ast.Call) and isinstance(c.func, ast.Attribute) and c.func.attr == "splitlines" and not (isinstance(parent(c), ast.Call) and dotted(parent(c).func) == "len")
+            for c in ast.walk(e_)
+        )
+
+    tracked = set(seeds)
+    for _round in range(2):  # e.g. content <- content_lines <- content.splitlines()
+        for nm in list(tracked):
+            for _s, v, how in _defs(fi, nm):
+                if v is not None and how in ("assign", "aug"):
+                    tracked |= {x for x in _names(v) if x != nm and any(has_split(v2) for _s2, v2, _h2 in _defs(fi, x))}
+    out = []
+    for nm in sorted(tracked):
+        for _s, v, how in _defs(fi, nm):
+            if v is None:
+                continue
+            for c in ast.walk(v):
+                if isinstance(c, ast.Call) and isinstance(c.func, ast.Attribute) and c.func.attr == "splitlines" and not c.args and c not in out:
+                    out.append(c)
+    return sorted(out, key=lambda c: (c.lineno, c.col_offset))
+
+
+@rule(R10)
+def r10_line_model(corpus: Corpus, rep: Report, tier: str):
+    rep.rule(R10, "text whose lines are located with markdown-it's token maps (directive body, included file) is split on '\\n' only, not with str.splitlines (which also splits on form feed, U+2028, ...)")
+    g = get_callgraph(corpus)
+    targets: list[tuple[FunctionInfo, set[str], str]] = []
+    d = corpus.mod("parsers.directives")
+    res = d.cls("DirectiveParsingResult")
+    fields = [s.target.id for s in res.node.body if isinstance(s, ast.AnnAssign) and isinstance(s.target, ast.Name)]
+    for fi in _funcs(corpus):
+        for call in [n for n in fi.local_nodes() if isinstance(n, ast.Call)]:
+            if fi.module.resolve(dotted(call.func) or "").endswith("parsers.directives.DirectiveParsingResult") and "body" in fields and "body_offset" in fields:
+                b, o = arg_or_kw(call, fields.index("body"), "body"), arg_or_kw(call, fields.index("body_offset"), "body_offset")
+                seeds = {x.id for x in (b, o) if isinstance(x, ast.Name)}
+                targets.append((fi, seeds, "the directive body and its offset"))
+                # package callees whose result object feeds the body: the names their returned objects are built from
+                for nm in list(seeds):
+                    for _s, v, _h in _defs(fi, nm):
+                        for a in ast.walk(v) if v is not None else []:
+                            if isinstance(a, ast.Attribute) and isinstance(a.value, ast.Name):
+                                for _s2, v2, _h2 in _defs(fi, a.value.id):
+                                    if isinstance(v2, ast.Call):
+                                        for t in g.resolve_call(v2, fi):
+                                            if isinstance(t, FunctionInfo) and not t.is_lambda:
+                                                rs = set()
+                                                for r in t.local_nodes():
+                                                    if isinstance(r, ast.Return) and isinstance(r.value, ast.Call):
+                                                        ci = corpus.find_class(t.module.resolve(dotted(r.value.func) or ""))
+                                                        fl = [s.target.id for s in ci.node.body if isinstance(s, ast.AnnAssign) and isinstance(s.target, ast.Name)] if ci else []
+                                                        if a.attr in fl:
+                                                            x = arg_or_kw(r.value, fl.index(a.attr), a.attr)
+                                                            rs |= _names(x)
+                                                if rs:
+                                                    targets.append((t, rs, f"the `{a.attr}` it returns to {fi.name}"))
+    for (sink_name, caller_fq), (conv, _why) in NRT_CONVENTION.items():
+        if conv == START:
+            fi = corpus.func(caller_fq.replace("myst_parser.", "", 1))
+            for call in [n for n in fi.local_nodes() if isinstance(n, ast.Call) and isinstance(n.func, ast.Attribute) and n.func.attr == sink_name]:
+                text = arg_or_kw(call, 0, "text")
+                if isinstance(text, ast.Name):
+                    hosts = [(fi, text.id)]
+                    for n_ in fi.local_nodes():  # T, V = helper(...)
+                        if isinstance(n_, ast.Assign) and len(n_.targets) == 1 and isinstance(n_.targets[0], (ast.Tuple, ast.List)) and isinstance(n_.value, ast.Call):
+                            nm_ = [e.id if isinstance(e, ast.Name) else None for e in n_.targets[0].elts]
+                            if text.id in nm_:
+                                for t in g.resolve_call(n_.value, fi):
+                                    if isinstance(t, FunctionInfo) and not t.is_lambda:
+                                        for r in t.local_nodes():
+                                            if isinstance(r, ast.Return) and isinstance(r.value, ast.Tuple) and len(r.value.elts) == len(nm_) and isinstance(r.value.elts[nm_.index(text.id)], ast.Name):
+                                                hosts.append((t, r.value.elts[nm_.index(text.id)].id))
+                    for hf, tn in hosts:
+                        targets.append((hf, {tn}, "the included text"))
+    by_key: dict[str, list] = {}
+    for fi, seeds, what in targets:
+        k = f"{_key_owner(corpus, fi).fq}|str.splitlines on source text located by markdown-it lines"
+        ent = by_key.setdefault(k, [])
+        if not any(e_[0].fq == fi.fq and e_[1] == seeds for e_ in ent):
+            ent.append((fi, seeds, what, _splitlines_in_defs(fi, seeds)))
+    for k, ent in by_key.items():
+        bad = [(fi, what, hits) for fi, _sd, what, hits in ent if hits]
+        if bad:
+            fi, what, hits = bad[0]
+            n_all = sum(len(h) for _f, _w, h in bad)
+            rep.violation(R10, k, fi.module.site(hits[0]), f"{fi.qualname} splits {what} with `{short(hits[0], 40)}`" + (f" (and {n_all - 1} more in {', '.join(sorted({f.name for f, _w, _h in bad}))})" if n_all > 1 else "") + ": str.splitlines also breaks at form feed, vertical tab, U+0085, U+2028/2029 and the like, while markdown-it (whose token maps give the lines) breaks at '\\n' only - after such a character every line of the body / included file is reported too high")
+        else:
+            rep.ok(R10, k, ent[0][0].site(), "no str.splitlines where the text is cut into lines")
+    rep.expect_min(R10, 2, "functions that split a directive body or an included file into lines")
+
+
+RULES = [r1_stamping, r2_line_kinds, r3_shift_once, r4_lossy_round_trip, r5_source_path, r6_body_offset_pairing, r7_start_accumulator, r8_line_free_cache, r9_anchor_fixed, r10_line_model]
 
 
 # ---------------------------------------------------------------------------
@@ -2880,6 +3036,23 @@ def mutants(corpus: Corpus):
         out.append(Mutant("c04-state-anchor-advanced-in-place", R9, mk.rel, src2, expect="_lineno"))
     else:
         out.append(("c04-state-anchor-advanced-in-place", "nested_parse call shape changed"))
+
+    # ---- R9 (b) / R10: reverts, computable once the two baseline deviations are repaired (until then the rules fire on the tree itself)
+    f = base.func("DocutilsRenderer.run_directive")
+    cl = sorted((s for s in f.local_nodes() if isinstance(s, ast.Assign) and any(isinstance(t, ast.Attribute) and t.attr == "current_line" for t in s.targets)), key=lambda s: s.lineno)
+    if len(cl) > 1:
+        add("c04-revert-current-line-set-again-after-run", R9, base, cl[-1], "pass", "current_line")
+    f = dm.func("parse_directive_text")
+    bl = [s for s in f.local_nodes() if isinstance(s, ast.Assign) and unparse(s.targets[0]) == "body_lines" and isinstance(s.value, ast.Call) and isinstance(s.value.func, ast.Name) and len(s.value.args) == 1]
+    if bl:
+        st0 = sorted(bl, key=lambda s: s.lineno)[0]
+        add("c04-revert-body-split-on-newline-only", R10, dm, st0.value, f"{unparse(st0.value.args[0])}.splitlines()", "splitlines")
+    f = mk.func("MockIncludeDirective.run")
+    cutst = find_stmt(f, lambda s: isinstance(s, ast.Assign) and unparse(s.targets[0]) == "file_content" and "startline:endline" in unparse(s.value).replace(" ", "") and ".splitlines()" not in unparse(s.value))
+    if cutst is not None:
+        inner = next((c for c in ast.walk(cutst.value) if isinstance(c, ast.Call) and isinstance(c.func, ast.Name) and len(c.args) == 1 and unparse(c.args[0]) == "file_content"), None)
+        if inner is not None:
+            add("c04-revert-included-text-split-on-newline-only", R10, mk, inner, "file_content.splitlines()", "splitlines")
 
     # ---- R7
     f = mk.func("MockIncludeDirective.run")
